@@ -103,7 +103,10 @@ func (v *BasicSeqnoValidator) validate(ctx context.Context, _ peer.ID, m *Messag
 
 	err = v.meta.Put(ctx, p, nonceBytes)
 	if err != nil {
+		// The nonce was not recorded: accepting the message now would let the same
+		// or a lower sequence number through again later.
 		v.logger.Warn("error storing peer nonce", "err", err)
+		return ValidationIgnore
 	}
 
 	return ValidationAccept
